@@ -188,10 +188,11 @@ func init() {
 		w.Genesis(a, iss.Address(), spice.Melange{Currency: 1000})
 		rounds := 6
 		if c.Tier == "thorough" {
-			rounds = 60
+			rounds = 120
 		}
 		sealer := w.NewWallet()
 		var pending []string
+		var recv *Node
 		emit := func(format string, args ...interface{}) { pending = append(pending, fmt.Sprintf(format, args...)) }
 		for round := 0; round < rounds; round++ {
 			gen := a.ab.VerifSnapshot().Vertices[0]
@@ -219,15 +220,22 @@ func init() {
 				}
 				cases := append([]mutant{{"original", o, false}}, mutantsOf(c, o, other, stranger, sealer, iss)...)
 				for _, m := range cases {
-					// fresh receiving node per case: nothing a previous mutant did can interfere
-					b := w.NewNode()
-					w.syncFrom(a, b)
+					// the receiving node is replaced as soon as anything changed it: nothing a previous
+					// mutant did can interfere (and a rejected mutant must leave it as it was)
+					if recv == nil {
+						recv = w.NewNode()
+						w.syncFrom(a, recv)
+					}
+					b := recv
 					before := ledgerKey(ptr(b.ab.VerifSnapshot()))
 					verr := accountant.VerifVerifyVertex(&m.v, w.ver)
 					cp := m.v
 					aerr := b.ab.AddLeaf(w.ctx, &cp)
 					after := ledgerKey(ptr(b.ab.VerifSnapshot()))
-					b.cancel()
+					if before != after || aerr == nil {
+						b.cancel()
+						recv = nil
+					}
 					emit("TV %s | %d | %s %d", tvFields(&m.v), b2i(verr == nil), errTag(aerr), b2i(before != after))
 					c.Rep.Evals++
 					c.Distinct(kind + "/" + m.class)
